@@ -13,6 +13,7 @@ mod engine_io;
 mod engine_sched;
 mod engine_upgrade;
 mod json;
+mod lz77;
 mod prng;
 mod simio;
 mod supervisor;
@@ -81,6 +82,32 @@ fn main() {
             let engine = engine_for(&args[2]).expect("engine");
             util::set_rlimit_as(12 << 30);
             engine.aux(&args[3..])
+        }
+        "selftest-lz77" => {
+            // the harness's own encoder must emit valid DEFLATE: inflate with zlib and compare
+            let mut rng = prng::Rng::new(util::env_u64("VERIF_SEED").unwrap_or(1));
+            let mut bad = 0;
+            let n = 3000;
+            let mut refs = 0u64;
+            for i in 0..n {
+                let target = rng.range(0, 9000) as usize;
+                let plain = if target < 20 { vec![b'a'; target] } else { workload::gen_plaintext(&mut rng, target) };
+                let p = lz77::Lz77Params::random(&mut rng);
+                let enc = lz77::encode(&plain, &p);
+                match workload::zlib_inflate_raw(&enc, plain.len() + 16) {
+                    Some((out, used)) if out == plain && used == enc.len() => {
+                        refs += (plain.len() as u64).saturating_sub(enc.len() as u64);
+                    }
+                    other => {
+                        bad += 1;
+                        if bad < 5 {
+                            println!("case {}: {} -> mismatch ({:?})", i, p.describe(), other.map(|(o, u)| (o.len(), u)));
+                        }
+                    }
+                }
+            }
+            println!("lz77 selftest: {} cases, {} bad, {} bytes saved in total", n, bad, refs);
+            if bad == 0 { 0 } else { 2 }
         }
         "replay" => replay_parent(&args, &root),
         "replay-exec" => replay_exec(&args),
